@@ -55,6 +55,28 @@ def _isinstance_tuples(fn):
     return [(s, n) for _, _, s, n in out]
 
 
+def probe_children(sf):
+    """Order in which `FortranBase.children` visits the collections of an entity, and the attributes it yields as
+    single objects - observed on the real property: a stand-in whose every attribute is a one-element list holding
+    the attribute's name.  A collection attribute shows up as its name (the element), a single-object attribute as
+    the list itself.  Independent of how the property is written (literals, hoisted tables, helper generators)."""
+    class Recorder(sf.FortranBase):
+        def __init__(self):  # noqa - no parsing
+            pass
+
+        def __getattr__(self, name):
+            if name.startswith("__"):
+                raise AttributeError(name)
+            return [name]
+
+    seen = list(Recorder().children)
+    order = [x for x in seen if isinstance(x, str)]
+    non_list = [x[0] for x in seen if isinstance(x, list)]
+    if len(order) < 10 or not non_list or len(order) + len(non_list) != len(seen) or len(set(order)) != len(order):
+        raise ValueError(f"FortranBase.children: unexpected probe result {seen}")
+    return order, non_list
+
+
 def extract():
     common.import_ford()
     import ford.fortran_project as fp
@@ -68,23 +90,20 @@ def extract():
     src = (common.REPO / "ford" / "sourceform.py").read_text()
     tree = ast.parse(src)
     base = _cls(tree, "FortranBase")
-    children = _fn(base, "children")
-    it_calls = [n for n in ast.walk(children)
-                if isinstance(n, ast.Call) and ast.unparse(n.func) == "self.iterator"]
-    if len(it_calls) != 1:
-        raise ValueError("FortranBase.children: expected exactly one self.iterator(...) call")
-    order = [ast.literal_eval(a) for a in it_calls[0].args]
-    nl = [n for n in ast.walk(children) if isinstance(n, ast.Assign)
-          and ast.unparse(n.targets[0]) == "non_list_children"]
-    if len(nl) != 1:
-        raise ValueError("FortranBase.children: non_list_children literal not found")
-    non_list = ast.literal_eval(nl[0].value)
-    # the shape `chain(self.iterator(...), filter(None, (getattr(self, item, None) for item in non_list_children)))`
-    ret = [n for n in ast.walk(children) if isinstance(n, ast.Return)]
-    if len(ret) != 1 or not ast.unparse(ret[0].value).startswith("chain(self.iterator("):
-        raise ValueError("FortranBase.children: unexpected return shape")
-    if "filter(None, (getattr(self, item, None) for item in non_list_children))" not in ast.unparse(ret[0].value):
-        raise ValueError("FortranBase.children: non-list part has an unexpected shape")
+    order, non_list = probe_children(sf)
+    # where the property still has the shape of a literal list, the probe must agree with what is written
+    try:
+        children = _fn(base, "children")
+        it_calls = [n for n in ast.walk(children)
+                    if isinstance(n, ast.Call) and ast.unparse(n.func) == "self.iterator"]
+        nl = [n for n in ast.walk(children) if isinstance(n, ast.Assign)
+              and ast.unparse(n.targets[0]) == "non_list_children"]
+        written = ([ast.literal_eval(a) for a in it_calls[0].args], ast.literal_eval(nl[0].value)) \
+            if len(it_calls) == 1 and len(nl) == 1 else None
+    except (ValueError, SyntaxError, IndexError):  # rewritten (hoisted tables, starred arguments ...): probe only
+        written = None
+    if written is not None and written != (order, non_list):
+        raise ValueError(f"FortranBase.children: probe {(order, non_list)} disagrees with the source {written}")
 
     # concrete entity classes
     classes = {n: c for n, c in vars(sf).items()
